@@ -55,13 +55,13 @@ def errors_of(msgs):
     return out
 
 
-def build_corpus(crate, meta, log):
+def build_corpus(crate, meta, log, profile_args=()):
     """returns {case_id: {"where", "msg"}} of cases that do not compile; leaves the bins built without them"""
     failed = {}
     by_file = {b["src"]: b for b in meta["bins"]}
     for rnd in range(40):      # a fatal error (e.g. recursion limit) hides all later ones: one case per round then
         t0 = time.time()
-        rc, msgs, err = cargo_json(crate, ["--bins"])
+        rc, msgs, err = cargo_json(crate, ["--bins"] + list(profile_args))
         errs = errors_of(msgs)
         log(f"build round {rnd}: rc={rc} errors={len(errs)} {time.time() - t0:.1f}s")
         if rc == 0 and not errs:
@@ -298,6 +298,25 @@ def miri_run(crate, meta, outdir, log=print, jobs=8):
     log(f"miri: ran {len(live)} bins in {time.time() - t0:.1f}s, {aborts} aborts, {len(failed)} cases do not build")
     shards = assemble(crate, meta, failed, outdir)
     return shards, aborts
+
+
+def release_run(crate, meta, outdir, log=print, jobs=8):
+    """the same small corpus built with optimisations and WITHOUT debug assertions / overflow checks: results must still be
+    what the contract says (an optimiser may exploit undefined behaviour that the debug checks do not see)"""
+    failed = build_corpus(crate, meta, log, profile_args=["--release"])
+    for i in failed:
+        failed[i]["bare_ok"] = True
+    os.makedirs(outdir, exist_ok=True)
+    t0 = time.time()
+
+    def one(b):
+        if all(c["id"] in failed for c in b["cases"]):
+            return 0
+        return run_bin(os.path.join(TARGET, "release", b["name"]), os.path.join(crate, b["script"]), os.path.join(outdir, b["name"] + ".raw"))
+    with ThreadPoolExecutor(jobs) as ex:
+        aborts = sum(ex.map(one, meta["bins"]))
+    log(f"release: ran {len(meta['bins'])} optimised bins in {time.time() - t0:.1f}s, {aborts} aborts")
+    return assemble(crate, meta, failed, outdir), aborts
 
 
 def build_and_run(crate, meta, cases_by_id, outdir, log=print, jobs=16):
